@@ -1,5 +1,5 @@
 (* C19 — messages in one SML text are parsed independently (partial). *)
-From Secs Require Import Ast Fill Msg Lexer Parser SmlNumbers SmlProofs.
+From Secs Require Import Ast Fill Msg Lexer Parser SmlNumbers SmlProofs LexProofs ParseProofs LayoutProofs FrameProofs.
 Open Scope Z_scope.
 
 (* variable names and ellipsis numbering are scoped to one message: parsing a
@@ -16,7 +16,43 @@ Theorem C19_separator : forall alnum ws, Forall (fun b => is_ws b = true) ws ->
 Proof. exact lex_skip_whitespace. Qed.
 Print Assumptions C19_separator.
 
-(* C19_concat_partial: msgs (parse (t1 ++ sep ++ t2)) = msgs (parse t1) ++ msgs (parse t2)
-   needs the lexer's compositionality after a terminator; it is decided by suite
-   C19 (pairs and longer sequences of accepted texts joined by every separator
-   class) on the library and on the model. *)
+(* one message is parsed from the remaining tokens alone: the same outcome, the
+   same new diagnostics and the same new message as from a fresh state — the
+   diagnostics and messages of everything parsed before are carried along untouched *)
+Theorem C19_message_alone : forall floats st,
+  parse_message floats st =
+  (fst (parse_message floats (fresh st)),
+   past (errs st) (warns st) (msgs st) (snd (parse_message floats (fresh st)))).
+Proof. exact message_depends_on_tokens_only. Qed.
+Print Assumptions C19_message_alone.
+
+(* the whole rest of the text: at any point of the message loop, the final
+   result is the result so far followed by the result of parsing the remaining
+   tokens on their own — the messages of the second text are those it yields alone *)
+Theorem C19_rest_alone : forall floats f st,
+  obs (parse_loop floats f st) =
+  obs (past (errs st) (warns st) (msgs st) (parse_loop floats f (fresh st))).
+Proof. exact rest_parsed_independently. Qed.
+Print Assumptions C19_rest_alone.
+
+(* comments between two messages contribute no token *)
+Theorem C19_comment_separator : forall alnum body rest st F G,
+  Forall (fun b => negb (byte_eqb b x0a) = true) body ->
+  (length (x2f :: x2f :: body ++ x0a :: rest) < F)%nat -> (length rest < G)%nat ->
+  drop_comments (lex_from alnum F st (x2f :: x2f :: body ++ x0a :: rest) 0) =
+  map (shift (Z.of_nat (length body) + 3)) (drop_comments (lex_from alnum G st rest 0)).
+Proof. exact comment_moves_offsets. Qed.
+Print Assumptions C19_comment_separator.
+
+(* the loop ends only at EOF or with an error: no message of the input is skipped *)
+Theorem C19_all_messages : forall alnum floats input,
+  r_errs (sml_parse alnum floats input) = [] -> typ_is (peek (sml_final alnum floats input)) TEOF = true.
+Proof. exact no_silent_stop. Qed.
+Print Assumptions C19_all_messages.
+
+(* C19_concat_partial: that the tokens of t1 ++ sep ++ t2 are the tokens of t1
+   (without its EOF) followed by the tokens of t2 moved by |t1 ++ sep| — the
+   locality of the lexer's prefix matchers under what follows a terminator —
+   and that the first text's messages do not depend on the tokens that follow
+   them are decided by suite C19 (pairs and longer sequences of accepted texts
+   joined by every separator class) on the library and on the model. *)
